@@ -1399,6 +1399,9 @@ var ZipmapFunc = function.New(&function.Spec{
 		for it := keys.ElementIterator(); it.Next(); {
 			_, v := it.Element()
 			v, vMarks := v.Unmark()
+			if v.IsNull() {
+				return cty.NilVal, fmt.Errorf("keys list has null value at index %d", i)
+			}
 			val := values.Index(cty.NumberIntVal(int64(i)))
 			output[v.AsString()] = val
 
